@@ -1,0 +1,7 @@
+//! Verification hooks. Compiled only with `--cfg rustybuzz_verif`; re-exports internals so that an
+//! external harness can run them against a formal model. Not part of the public API.
+#![allow(missing_docs)]
+
+pub mod set_digest {
+    pub use crate::hb::set_digest::*;
+}
